@@ -8,6 +8,7 @@ Provides LU decomposition functions for Python objects stored in 2D arrays.
 """
 from __future__ import division
 from functools import reduce
+import numbers
 try:
     xrange  # Python 2
 except NameError:
@@ -144,7 +145,9 @@ def _lubksb(a_lu,idx,b):
         if( ii != -1 ):
             for j in xrange(ii,i):
                 sum -= a_lu[i,j] * b[j]
-        elif(sum != 0.0):
+        elif not (isinstance(sum, numbers.Number) and sum == 0.0):
+            # skip only plain zeros: an uncertain number with value 0 still
+            # carries components of uncertainty that must be propagated
             ii = i
         b[i] = sum
 
